@@ -204,4 +204,14 @@ CLAIMS = {
         "note": _TB + "Visitor implementations (derived / std) follow the MapAccess protocol and do not panic themselves.",
         "technique": "outcome-map extraction by abstract evaluation of MIR, panic-site inventory, constructor-site audit",
     },
+    "C11": {
+        "text": "Claimed (one structural clause, necessary for 'the same spans from str, slice and stream'): with a lookahead "
+                "byte pending, IoRead::position returns the position that IoRead::peek saved before it advanced the "
+                "line/column iterator, and without one the iterator's own line/column; SliceRead::peek does not move the "
+                "index; byte_offset compensates likewise. All span arithmetic, containment, adjacency and re-parsing of the "
+                "covered text are runtime-value questions and are not decided.",
+        "note": _TB,
+        "technique": "abstract evaluation of the reader's position/peek functions in both lookahead states with symbolic "
+                     "line/column tokens",
+    },
 }
